@@ -331,9 +331,9 @@ type Case struct {
 
 func (c *Case) Timeout() time.Duration {
 	if c.Kind == "cycle" {
-		return 15 * time.Second
+		return 30 * time.Second
 	}
-	return 3 * time.Second
+	return 8 * time.Second // generous: a loaded machine must not be read as a hang
 }
 
 func (c *Case) Exec() Result {
